@@ -1,0 +1,23 @@
+// Copyright IBM Corp. 2020, 2025
+// SPDX-License-Identifier: MPL-2.0
+
+//go:build verif
+
+package wal
+
+import "sync/atomic"
+
+var verifHook atomic.Value // func(site string)
+
+// SetVerifHook installs fn to be called at every schedule point. Only available
+// when built with the "verif" tag; used by the verification harness to force
+// rare interleavings.
+func SetVerifHook(fn func(site string)) {
+	verifHook.Store(fn)
+}
+
+func verifPoint(site string) {
+	if fn, ok := verifHook.Load().(func(string)); ok && fn != nil {
+		fn(site)
+	}
+}
